@@ -194,7 +194,11 @@ C09_Parse ==
            /\ p.cls = "ok" => (g.st = "ok" /\ g.name = p.name /\ AttrsAgree(g.attrs, p.attrs))
            /\ p.cls = "text" => g.st = "none"
 
-C09 == C09_Parse /\ (AtCleanReturn => Decisions_On(LastSrc, DL, out))
+\* "parses to exactly that name and those attributes" presupposes that the tag is found as ONE tag token with the
+\* reference extent: the tag tokens the parse ran on are those of the reference scan (what C08 demands of tokenize)
+C09_Tokens == pc = "tags_done" => TagSpansOf(toks) = RefSpans(file, cfg.ds, cfg.de)
+
+C09 == C09_Parse /\ C09_Tokens /\ (AtCleanReturn => Decisions_On(LastSrc, DL, out))
 
 (***************************************************************************)
 (* C10 pairing with stack discipline, every token once and in order.       *)
